@@ -21,7 +21,7 @@ def trees(ctx, G, n):
     return out
 
 
-def run(ctx, calls=CALLS, module=MODULE, corpus=CORPUS):
+def run(ctx, calls=CALLS, module=MODULE, corpus=CORPUS, gen_kw=None, extra=None):
     gate = None
     gate_err = None
     try:
@@ -29,7 +29,7 @@ def run(ctx, calls=CALLS, module=MODULE, corpus=CORPUS):
     except common.LeanGateError as ex:
         gate_err = str(ex)
     rng = random.Random(ctx.seed * 7919 + 17)
-    G = gen.Gen(rng, max_extent=4 if not ctx.thorough else 6)
+    G = gen.Gen(rng, max_extent=4 if not ctx.thorough else 6, **(gen_kw or {}))
     eng = treecheck.Engine(ctx, G, calls)
     if ctx.replay:
         rp = json.load(open(ctx.replay))
@@ -52,6 +52,8 @@ def run(ctx, calls=CALLS, module=MODULE, corpus=CORPUS):
         if not ctx.violations:
             common.violation(ctx, {"broken": f"Lean gate of {module}", "detail": gate_err[-3000:]}, no_input=True)
     cov = eng.coverage()
+    if extra is not None and not ctx.replay:
+        cov.update(extra(ctx))
     cov["rule"] = ("type-directed random operator trees (gen.py) over all modelled kinds, depth <= %d, extents <= %d, every node of "
                    "every tree observed; distinct = canonical JSON of (expression, call, operand); non-trivial = not a bare "
                    "Identity/ScalarMul/Diagonal leaf" % (4 if ctx.thorough else 3, G.max_extent))
